@@ -157,6 +157,9 @@ const (
 	UpdValidByPeer // valid successor whose actor is another participant
 	UpdAppRefuses  // otherwise valid successor with data the (data) app refuses; other apps: as UpdSumPlus1
 	numUpd
+	// UpdNarrow (ForceUpdate only): a state with one balance column less than there are
+	// participants; the forced update is unchecked, but every participant still has to sign
+	UpdNarrow = numUpd
 )
 
 // AddSig classes.
@@ -168,13 +171,14 @@ const (
 	SigShort
 	SigEmpty
 	SigNil
+	SigTrailing // a valid signature followed by extra bytes: malformed, must be refused
 	numSigClasses
 )
 
 var (
 	initClassNames = []string{"valid", "wrong-parts", "negative", "app-refuses"}
-	updClassNames  = []string{"valid", "valid-final", "version+2", "sum+1", "valid-by-peer", "app-refuses"}
-	sigClassNames  = []string{"valid", "bitflip", "foreign", "replay", "short", "empty", "nil"}
+	updClassNames  = []string{"valid", "valid-final", "version+2", "sum+1", "valid-by-peer", "app-refuses", "one-column-less"}
+	sigClassNames  = []string{"valid", "bitflip", "foreign", "replay", "short", "empty", "nil", "valid+trailing-bytes"}
 )
 
 // Op is one operation instance.
@@ -205,7 +209,7 @@ func Alphabet(n int) []Op {
 	for c := 0; c < numUpd; c++ {
 		ops = append(ops, Op{Kind: OpUpdate, Class: c})
 	}
-	for _, c := range []int{UpdValid, UpdValidFinal, UpdVersionPlus2} {
+	for _, c := range []int{UpdValid, UpdValidFinal, UpdVersionPlus2, UpdNarrow} {
 		ops = append(ops, Op{Kind: OpForceUpdate, Class: c})
 	}
 	ops = append(ops, Op{Kind: OpSig})
@@ -348,6 +352,12 @@ func (e *Exec) successor(base *channel.State, class int) (*channel.State, channe
 		s.Version = base.Version + 2
 	case UpdSumPlus1:
 		s.Balances[0][0] = new(big.Int).Add(s.Balances[0][0], big.NewInt(1))
+	case UpdNarrow:
+		for i := range s.Balances {
+			l := len(s.Balances[i]) - 1
+			s.Balances[i][0] = new(big.Int).Add(s.Balances[i][0], s.Balances[i][l])
+			s.Balances[i] = s.Balances[i][:l]
+		}
 	case UpdAppRefuses:
 		if e.W.App == gen.AppData {
 			s.Data = &gen.BytesData{B: append(append([]byte(nil), gen.RefusedMarker...), byte(e.counter))}
@@ -501,6 +511,8 @@ func (e *Exec) Apply(op Op) (ret *Step) {
 			sig = []byte{}
 		case SigNil:
 			sig = nil
+		case SigTrailing:
+			sig = append(append(wallet.Sig(nil), e.signOver(op.I, target)...), 0x00, 0x17)
 		}
 		st.ArgSig = sig
 		if len(m.StagedSig) < n {
